@@ -1,4 +1,4 @@
-import FuModel.Props.C17
+import FuModel.Proofs.RegexSound
 
 /-!
 # The executable language specification of C17 is sound for the inductive language
